@@ -179,10 +179,94 @@ pub fn load_case(path: &Path) -> Result<Case, String> {
     serde_json::from_value(c).map_err(|e| format!("{path:?}: {e}"))
 }
 
+// ---------------------------------------------------------------------------------------------
+// watchdog: a case whose thread burns more than WATCH_CPU_S CPU-seconds is reported
+// (C03: as a non-termination violation; every other property: exit 2, "cannot decide").
+
+pub const WATCH_CPU_S: f64 = 20.0;
+struct WatchEntry {
+    thread: libc::pthread_t,
+    cpu_start: f64,
+    case: Case,
+}
+static WATCH: Mutex<Vec<Option<WatchEntry>>> = Mutex::new(Vec::new());
+thread_local! {
+    static WATCH_SLOT: std::cell::Cell<usize> = const { std::cell::Cell::new(usize::MAX) };
+}
+
+fn ts_to_f64(ts: libc::timespec) -> f64 {
+    ts.tv_sec as f64 + ts.tv_nsec as f64 * 1e-9
+}
+fn own_cpu() -> f64 {
+    let mut ts = libc::timespec { tv_sec: 0, tv_nsec: 0 };
+    unsafe { libc::clock_gettime(libc::CLOCK_THREAD_CPUTIME_ID, &mut ts) };
+    ts_to_f64(ts)
+}
+fn thread_cpu(t: libc::pthread_t) -> Option<f64> {
+    let mut cid: libc::clockid_t = 0;
+    if unsafe { libc::pthread_getcpuclockid(t, &mut cid) } != 0 {
+        return None;
+    }
+    let mut ts = libc::timespec { tv_sec: 0, tv_nsec: 0 };
+    if unsafe { libc::clock_gettime(cid, &mut ts) } != 0 {
+        return None;
+    }
+    Some(ts_to_f64(ts))
+}
+
+fn watch_begin(case: &Case) {
+    let slot = WATCH_SLOT.with(|s| s.get());
+    let mut g = WATCH.lock().unwrap();
+    let slot = if slot == usize::MAX {
+        g.push(None);
+        let n = g.len() - 1;
+        WATCH_SLOT.with(|s| s.set(n));
+        n
+    } else {
+        slot
+    };
+    g[slot] = Some(WatchEntry { thread: unsafe { libc::pthread_self() }, cpu_start: own_cpu(), case: case.clone() });
+}
+fn watch_end() {
+    let slot = WATCH_SLOT.with(|s| s.get());
+    if slot != usize::MAX {
+        WATCH.lock().unwrap()[slot] = None;
+    }
+}
+
+fn spawn_watchdog(id: &'static str, verif_dir: PathBuf) {
+    std::thread::spawn(move || loop {
+        std::thread::sleep(std::time::Duration::from_millis(1000));
+        let g = WATCH.lock().unwrap();
+        for e in g.iter().flatten() {
+            if let Some(now) = thread_cpu(e.thread) {
+                if now - e.cpu_start > WATCH_CPU_S {
+                    let msg = format!("a call is still running after {WATCH_CPU_S} CPU-seconds of its thread (non-termination)");
+                    let dir = verif_dir.join("replays");
+                    let _ = std::fs::create_dir_all(&dir);
+                    let p = dir.join(format!("{}-hang-{:016x}.json", id, case_hash(&e.case)));
+                    let _ = std::fs::write(&p, serde_json::to_string_pretty(&replay_doc(id, &e.case, &msg)).unwrap());
+                    if id == "C03" {
+                        println!("violation detail: {msg}");
+                        println!("VIOLATION property={} replay={}", id, p.display());
+                        std::process::exit(1);
+                    } else {
+                        println!("INCONCLUSIVE property={id}: {msg}; case saved to {}", p.display());
+                        std::process::exit(2);
+                    }
+                }
+            }
+        }
+    });
+}
+
 fn check_guarded(p: &dyn Property, case: &Case, st: &mut Stats) -> Result<(), String> {
     // a panic of the *harness* (not of the library inside a guarded call) must not masquerade as a
     // verdict: it propagates and aborts the run (exit 101 -> treated as "cannot decide")
-    p.check(case, st)
+    watch_begin(case);
+    let r = p.check(case, st);
+    watch_end();
+    r
 }
 
 /// Returns the process exit code.
@@ -201,6 +285,7 @@ pub fn run_property(p: &dyn Property, quick: bool, ctx: &RunCtx) -> i32 {
     );
     let mut total = Stats::default();
     let mut failure: Option<(Case, String)> = None;
+    spawn_watchdog(id, ctx.verif_dir.clone());
 
     // 1. known findings of this property: replay the witness in strict mode
     for f in findings.iter().filter(|f| f.property == id && f.status == "known") {
